@@ -64,7 +64,7 @@ def run_case(case):
     loss, grad = eng._marginal_loss(mu)
     ref = inf.loss_from_answers(meas, lambda proj: oracles.marg(Y, attrs, proj), metric)
     # numerical floor: a loss is only resolved relative to the size of its terms (loss of the all-zero table)
-    floor = 1e-12 * (inf.loss_from_answers(meas, lambda proj: np.zeros([shape[attrs.index(a)] for a in proj]), metric) + float(total) ** 2 + 1.0)
+    floor = inf.loss_floor(meas, total)
     if not np.isfinite(loss) or abs(loss - ref) > 1e-9 * abs(ref) + floor:
         out.fail('mismatch:loss', 'loss %r, stated objective %r (%d measurements, cliques %s)' % (loss, ref, len(meas), model.cliques))
     # (b) gradient is the derivative of the loss
